@@ -1,7 +1,7 @@
 (* C01 / C02: facts about Model/Server.v -- the answer to one delivered message (single or batch).
    All statements are for ALL byte strings, registries and handler functions. *)
-From JV Require Import Base.Bytes Base.Dec Base.Utf8 Json.Json Json.JsonSer Json.JsonParse Json.JsonWf Model.Wire Model.RespSize
-  Gen.SniffGen Gen.ErrorCodesGen Model.Server.
+From JV Require Import Base.Bytes Base.Dec Base.Utf8 Json.Json Json.JsonSer Json.JsonParse Json.JsonWf Model.Wire Model.ErrShape
+  Model.RespSize Model.BatchGate Gen.SniffGen Gen.ErrorConstsGen Gen.BatchGateGen Model.Server.
 From JV Require Import Proofs.BytesFacts Proofs.Utf8Facts Proofs.DecFacts Proofs.LexFacts Proofs.JsonFacts Proofs.WireFacts.
 Local Open Scope N_scope.
 Arguments N.add : simpl never.
@@ -205,11 +205,16 @@ Lemma mk_response_not_null i p : bytes_eqb (mk_response i p) null_text = false.
 Proof. destruct (mk_response_head i p) as [tl ->]. reflexivity. Qed.
 
 (* ---------- the fixed error objects are fine ---------- *)
-Lemma exceeded_data_span_ok n : span_ok (exceeded_data n).
+(* the data member "<prefix><limit>" of the limit errors, for a generated prefix that is UTF-8 *)
+Lemma limit_data_span_ok p n : utf8_valid p = true -> span_ok (limit_data p n).
 Proof.
-  unfold exceeded_data. apply span_ok_str. apply utf8_valid_ascii. rewrite forallb_app.
-  apply andb_true_iff. split; [reflexivity | apply digits_ascii, print_N_digits].
+  intro Hp. unfold limit_data. apply span_ok_str. apply utf8_valid_app; [exact Hp|].
+  apply utf8_valid_ascii, digits_ascii, print_N_digits.
 Qed.
+
+Lemma limit_shape_err_ok c m p n :
+  i32_range c -> utf8_valid m = true -> utf8_valid p = true -> errobj_ok (shape_err (c, m, Some p) n).
+Proof. intros Hc Hm Hp. split; [exact Hc | split; [exact Hm | apply limit_data_span_ok, Hp]]. Qed.
 
 Ltac i32 := unfold i32_range; cbv; split; [discriminate | reflexivity].
 Ltac fixed_err := split; [i32 | split; [vm_compute; reflexivity | exact I]].
@@ -219,12 +224,13 @@ Lemma invalid_request_ok : errobj_ok invalid_request. Proof. fixed_err. Qed.
 Lemma method_not_found_ok : errobj_ok method_not_found. Proof. fixed_err. Qed.
 Lemma internal_err_ok : errobj_ok internal_err. Proof. fixed_err. Qed.
 Lemma batches_not_supported_ok : errobj_ok batches_not_supported. Proof. fixed_err. Qed.
+Ltac limit_err := apply limit_shape_err_ok; [i32 | vm_compute; reflexivity | vm_compute; reflexivity].
 Lemma too_big_batch_request_ok n : errobj_ok (too_big_batch_request n).
-Proof. split; [i32 | split; [vm_compute; reflexivity | apply exceeded_data_span_ok]]. Qed.
+Proof. limit_err. Qed.
 Lemma oversized_response_ok n : errobj_ok (oversized_response_error n).
-Proof. split; [i32 | split; [vm_compute; reflexivity | apply exceeded_data_span_ok]]. Qed.
+Proof. limit_err. Qed.
 Lemma too_big_batch_response_ok n : errobj_ok (too_big_batch_response_error n).
-Proof. split; [i32 | split; [vm_compute; reflexivity | apply exceeded_data_span_ok]]. Qed.
+Proof. limit_err. Qed.
 Lemma invalid_params_ok d : opt_span_ok d -> errobj_ok (invalid_params d).
 Proof. intro H. split; [i32 | split; [vm_compute; reflexivity | exact H]]. Qed.
 
@@ -805,6 +811,47 @@ Definition entry_directs (t : transport) (c : scfg) (es : list bytes) : list byt
 Definition entry_logs (t : transport) (c : scfg) (es : list bytes) : log :=
   flat_map (fun e => match entry_result reg h t c e with Some cr => c_log cr | None => [] end) es.
 
+(* ---------- the interpreted gate lists, evaluated on the lists generated from the source NOW ----------
+   `gate_reference` / `batch_tail` are the fixed readings the theorems of C02 are proved about; the two lemmas below
+   evaluate the interpreters of Model/Server.v on Gen/BatchGateGen.{batch_gate, batch_epilogue}.  A regenerated list
+   with another order, another comparison or another error object makes them (and with them every C02 theorem) fail. *)
+Definition over_limit (b : batchcfg) (n : nat) : option N :=
+  match b with
+  | BLimit l => if l <? N.of_nat n then Some l else None
+  | _ => None
+  end.
+
+Definition gate_reference (bc : batchcfg) (body : bytes) : gate_result :=
+  match bc with
+  | BDisabled => GReject batches_not_supported
+  | _ =>
+    match batch_elems body with
+    | None => GReject parse_error
+    | Some es =>
+      match over_limit bc (length es) with
+      | Some l => GReject (too_big_batch_request l)
+      | None => GAdmit es
+      end
+    end
+  end.
+
+Lemma run_gate_now bc body : run_gate batch_gate bc body = gate_reference bc body.
+Proof.
+  unfold run_gate, batch_gate, gate_reference, over_limit.
+  destruct bc as [|l|]; cbn [run_gate_from]; [reflexivity| |]; destruct (batch_elems body) as [es|]; try reflexivity.
+  cbn [len_exceeds]. destruct (l <? N.of_nat (length es)); reflexivity.
+Qed.
+
+Definition epilogue_reference (buf : bytes) (got_notification : bool) : option epilogue_result :=
+  if (Nat.leb (length buf) 1) && got_notification then Some FinSilent else Some (FinJson (finish buf)).
+
+Lemma run_epilogue_now buf gn : run_epilogue batch_epilogue buf gn = epilogue_reference buf gn.
+Proof.
+  unfold batch_epilogue, epilogue_reference. cbn [run_epilogue].
+  destruct ((Nat.leb (length buf) 1) && gn); [reflexivity|]. unfold finish.
+  destruct buf as [|x [|y buf]]; reflexivity.
+Qed.
+
 (* everything after the two gates *)
 Definition batch_tail (t : transport) (c : scfg) (es : list bytes) : mresp :=
   let '(buf, overflow, direct, lg) := run_entries reg h t c batch_new es in
@@ -814,6 +861,41 @@ Definition batch_tail (t : transport) (c : scfg) (es : list bytes) : mresp :=
     {| m_json := null_text; m_kind := RkNotif; m_direct := direct; m_log := lg |}
   else
     {| m_json := finish buf; m_kind := RkBatch; m_direct := direct; m_log := lg |}.
+
+(* rpc_batch for the lists the source has now: the nested match the model used to spell out *)
+Lemma rpc_batch_unfold t c body :
+  rpc_batch reg h t c body =
+  match sc_batch c with
+  | BDisabled => plain (error_response IdNull batches_not_supported)
+  | bc =>
+    match batch_elems body with
+    | None => plain (error_response IdNull parse_error)
+    | Some es =>
+      match over_limit bc (length es) with
+      | Some l => plain (error_response IdNull (too_big_batch_request l))
+      | None => batch_tail t c es
+      end
+    end
+  end.
+Proof.
+  unfold rpc_batch. rewrite run_gate_now. unfold gate_reference.
+  assert (T : forall es,
+    (let '(buf, overflow, direct, lg) := run_entries reg h t c batch_new es in
+     if overflow then
+       {| m_json := too_big_batch (sc_max_response c); m_kind := RkCall; m_direct := direct; m_log := lg |}
+     else
+       match run_epilogue batch_epilogue buf (existsb is_notification_entry es) with
+       | Some FinSilent => {| m_json := null_text; m_kind := RkNotif; m_direct := direct; m_log := lg |}
+       | Some (FinJson j) => {| m_json := j; m_kind := RkBatch; m_direct := direct; m_log := lg |}
+       | None => stuck_resp
+       end) = batch_tail t c es).
+  { intro es. unfold batch_tail. destruct (run_entries reg h t c batch_new es) as [[[buf o] d] l].
+    destruct o; [reflexivity|]. rewrite run_epilogue_now. unfold epilogue_reference.
+    destruct ((Nat.leb (length buf) 1) && existsb is_notification_entry es); reflexivity. }
+  destruct (sc_batch c) as [|l|]; [reflexivity| |]; destruct (batch_elems body) as [es|]; try reflexivity.
+  - destruct (over_limit (BLimit l) (length es)); [reflexivity | apply T].
+  - cbn [over_limit]. apply T.
+Qed.
 
 Lemma rpc_batch_enabled t c body :
   sc_batch c <> BDisabled ->
@@ -826,7 +908,7 @@ Lemma rpc_batch_enabled t c body :
     | None => batch_tail t c es
     end
   end.
-Proof. intro H. unfold rpc_batch. destruct (sc_batch c); [congruence | reflexivity | reflexivity]. Qed.
+Proof. intro H. rewrite rpc_batch_unfold. destruct (sc_batch c); [congruence | reflexivity | reflexivity]. Qed.
 
 Lemma alen_snoc_le done r rest : alen (done ++ [r]) <= alen (done ++ r :: rest).
 Proof. rewrite !alen_app. cbn [alen]. lia. Qed.
@@ -968,8 +1050,8 @@ Lemma c02_gate t c b body :
      o_frames (handle reg h t c b) = [mk_response IdNull (PError parse_error)] /\ o_log (handle reg h t c b) = []).
 Proof.
   intro S. repeat split.
-  - eapply frames_plain; [exact S|]. unfold rpc_batch. rewrite H. reflexivity.
-  - eapply frames_plain; [exact S|]. unfold rpc_batch. rewrite H. reflexivity.
+  - eapply frames_plain; [exact S|]. rewrite rpc_batch_unfold, H. reflexivity.
+  - eapply frames_plain; [exact S|]. rewrite rpc_batch_unfold, H. reflexivity.
   - eapply frames_plain; [exact S|]. rewrite rpc_batch_enabled by (rewrite H; discriminate).
     rewrite H0, H. unfold over_limit. destruct (N.ltb_spec n (N.of_nat (length es))); [reflexivity | lia].
   - eapply frames_plain; [exact S|]. rewrite rpc_batch_enabled by (rewrite H; discriminate).
@@ -1096,10 +1178,10 @@ Proof.
   intros S Hk. destruct (handle_batch t c b body S) as [_ F]. rewrite F.
   destruct t; [split; [cbn [length]; lia | reflexivity]|].
   assert (D : m_direct (rpc_batch reg h Ws c body) = []).
-  { unfold rpc_batch. destruct (sc_batch c) eqn:Eb; [reflexivity| |];
+  { rewrite rpc_batch_unfold. destruct (sc_batch c) eqn:Eb; [reflexivity| |];
       (destruct (batch_elems body) as [es|] eqn:Ee; [|reflexivity]);
       (destruct (over_limit _ (length es)); [reflexivity|]);
-      fold (batch_tail Ws c es); rewrite batch_tail_direct; apply run_entries_direct_nil;
+      rewrite batch_tail_direct; apply run_entries_direct_nil;
       intros e He; apply (entry_direct_nil Ws c es e (Hk es eq_refl) He). }
   rewrite D. cbn [app]. split; [|reflexivity]. unfold ws_own. destruct (m_kind _); cbn [length]; lia.
 Qed.
@@ -1158,6 +1240,40 @@ Proof.
 Qed.
 
 End Facts.
+
+(* ---------- C02_gate_order: the order-sensitive facts about the generated lists ----------
+   Stated on the interpreters applied to Gen/BatchGateGen.{batch_gate, batch_epilogue} themselves:
+   (1) a server with batching disabled answers its fixed error whatever the body is -- nothing has been parsed when
+       that is decided (with the parse first, an unparseable body would get the parse error instead);
+   (2) with batching enabled an unparseable array gets the parse error;
+   (3) a limit n is exceeded exactly by more than n entries (`len > n`), and the batch is then REJECTED: no entry is
+       admitted, so no entry is classified or executed (the length check precedes every entry processing);
+   (4) everything else is admitted with exactly the entries of the array -- `[]` included: the prologue has no
+       check for the empty array;
+   (5) after the loop: only notifications (nothing appended, at least one notification) -> no reply, decided before the
+       builder is finished; nothing appended otherwise (the empty array) -> BatchResponseBuilder::finish's error;
+       else the closed array. *)
+Lemma c02_gate_order :
+  forall bc body,
+    (bc = BDisabled -> run_gate batch_gate bc body = GReject batches_not_supported) /\
+    (bc <> BDisabled -> batch_elems body = None -> run_gate batch_gate bc body = GReject parse_error) /\
+    (forall n es, bc = BLimit n -> batch_elems body = Some es -> n < N.of_nat (length es) ->
+       run_gate batch_gate bc body = GReject (too_big_batch_request n)) /\
+    (forall es, bc <> BDisabled -> batch_elems body = Some es -> (forall n, bc = BLimit n -> N.of_nat (length es) <= n) ->
+       run_gate batch_gate bc body = GAdmit es) /\
+    (forall buf got_notification,
+       run_epilogue batch_epilogue buf got_notification =
+       if (Nat.leb (length buf) 1) && got_notification then Some FinSilent
+       else Some (FinJson (match buf with [_] => mk_response IdNull (PError invalid_request) | _ => removelast buf ++ [x5d] end))).
+Proof.
+  intros bc body. rewrite run_gate_now. unfold gate_reference, over_limit. repeat split.
+  - intros ->. reflexivity.
+  - intros Hb He. rewrite He. destruct bc; [congruence | reflexivity | reflexivity].
+  - intros n es -> He Hn. rewrite He. destruct (N.ltb_spec n (N.of_nat (length es))); [reflexivity | lia].
+  - intros es Hb He Hl. rewrite He. destruct bc as [|l|]; [congruence | | reflexivity].
+    specialize (Hl l eq_refl). destruct (N.ltb_spec l (N.of_nat (length es))); [lia | reflexivity].
+  - intros buf gn. rewrite run_epilogue_now. unfold epilogue_reference, finish. reflexivity.
+Qed.
 
 (* ====================================================================== *)
 (* witnesses                                                              *)
